@@ -324,7 +324,7 @@ func requeuerScenario(fromMeta bool, delay time.Duration, n, f, c int) *explore.
 			m.Metadata.Set("return-to", fmt.Sprintf("topic-%d", i))
 			script = append(script, m)
 			prev[m.UUID] = m.Metadata.Get(requeuer.RetriesKey)
-			origs[m.UUID] = m.Copy()
+			origs[m.UUID] = hx.Clone(m)
 		}
 		sub := hx.NewScriptSub("in", map[string][]*message.Message{"poison": script})
 		sub.Redeliver = 1
@@ -386,9 +386,9 @@ func requeuerScenario(fromMeta bool, delay time.Duration, n, f, c int) *explore.
 				vs.Fail("retries-plus-one", "requeuer: %s had retries %q, requeued with %q", m.UUID, prev[m.UUID], got)
 			}
 			// everything else intact
-			cp := m.Copy()
+			cp := hx.Clone(m)
 			delete(cp.Metadata, requeuer.RetriesKey)
-			oc := o.Copy()
+			oc := hx.Clone(o)
 			delete(oc.Metadata, requeuer.RetriesKey)
 			if !hx.SameContent(cp, oc) {
 				vs.Fail("relay-content", "requeuer: %s arrived changed: %v", m.UUID, m.Metadata)
